@@ -420,6 +420,11 @@ func (m *Module) apDepth(v ssa.Value, d int) AP {
 						return m.apDepth(whole.Val, d+1)
 					}
 				}
+				// a parameter spilled to a heap cell because a closure captures it:
+				// stored once (at entry), never written by the capturing closures
+				if prm, isParam := whole.Val.(*ssa.Parameter); isParam && !capturedAndWritten(x) {
+					return AP{Root: prm}
+				}
 			}
 		}
 	case *ssa.Call:
@@ -751,6 +756,9 @@ func inLoop(b *ssa.BasicBlock) bool { return canReach(b, b) }
 func returnsOf(fn *ssa.Function) []*ssa.Return {
 	var out []*ssa.Return
 	for _, b := range fn.Blocks {
+		if b == fn.Recover {
+			continue // only reached after a recovered panic; none of the analysed functions recovers
+		}
 		if len(b.Instrs) > 0 {
 			if r, ok := b.Instrs[len(b.Instrs)-1].(*ssa.Return); ok {
 				out = append(out, r)
@@ -1196,4 +1204,33 @@ func (m *Module) calleeCHA(c *ssa.CallCommon) *ssa.Function {
 	}
 	m.chaMemo[key] = res
 	return res
+}
+
+// capturedAndWritten: some closure capturing the cell al stores into it.
+func capturedAndWritten(al *ssa.Alloc) bool {
+	for _, r := range *al.Referrers() {
+		mc, ok := r.(*ssa.MakeClosure)
+		if !ok {
+			continue
+		}
+		fn, ok := mc.Fn.(*ssa.Function)
+		if !ok {
+			return true
+		}
+		for i, b := range mc.Bindings {
+			if b != ssa.Value(al) || i >= len(fn.FreeVars) {
+				continue
+			}
+			fv := fn.FreeVars[i]
+			if fv.Referrers() == nil {
+				continue
+			}
+			for _, rr := range *fv.Referrers() {
+				if st, ok := rr.(*ssa.Store); ok && st.Addr == ssa.Value(fv) {
+					return true
+				}
+			}
+		}
+	}
+	return false
 }
